@@ -98,6 +98,35 @@ theorem merged_probes_counts_rows_without_column (cols : List String) (rows : Li
   have hl : (redsOf cols rows).len = (rows.length : Rat) := rfl
   simp [cellOf, squashRowX, squashCols, List.find?, h', hl]
 
+/-- on the columns the round-1 model `squashRegion` has, the merged row of this module IS that model's row: the
+    theorems of Props/C14.lean / C14Ext.lean about `squashRegion` speak about the same cells -/
+theorem merged_row_extends_squashRegion (cols : List String) (h : Bool) (a : XRow) (rest : List XRow)
+    (hp : cols.contains "probes" = true) :
+    ∃ sg : Seg, squashRegion ((a :: rest).map (toSeg h)) = some sg ∧
+      cellOf "chromosome" (squashRowX cols (a :: rest)) = some (.str sg.chrom) ∧
+      cellOf "start" (squashRowX cols (a :: rest)) = some (.num (sg.s : Rat)) ∧
+      cellOf "end" (squashRowX cols (a :: rest)) = some (.num (sg.e : Rat)) ∧
+      cellOf "log2" (squashRowX cols (a :: rest)) = some (.num sg.log2) ∧
+      cellOf "gene" (squashRowX cols (a :: rest)) = some (.str sg.gene) ∧
+      cellOf "probes" (squashRowX cols (a :: rest)) = some (.num (sg.probes : Rat)) ∧
+      cellOf "weight" (squashRowX cols (a :: rest)) = some (.num sg.weight) := by
+  have hp' : (redsOf cols (a :: rest)).has "probes" = true := hp
+  refine ⟨_, rfl, ?_, ?_, ?_, ?_, ?_, ?_, ?_⟩
+  · simp [cellOf, squashRowX, squashCols, List.find?, redsOf, sq_strCol_chrom, toSeg]
+  · simp [cellOf, squashRowX, squashCols, List.find?, redsOf, sq_numCol_start, toSeg]
+  · simp [cellOf, squashRowX, squashCols, List.find?, redsOf, sq_numCol_end, toSeg, List.getLast?_map,
+      List.getLast?_eq_some_getLast]
+    have hl := sq_getLast_e h (a :: rest) (by simp)
+    simpa [toSeg] using hl.symm
+  · simp [cellOf, squashRowX, squashCols, List.find?, wmeanCell, redsOf, sq_numCol_log2, sq_numCol_weight, toSeg,
+      List.map_map, Function.comp_def]
+  · simp [cellOf, squashRowX, squashCols, List.find?, redsOf, sq_strCol_gene, toSeg, joinStrings, List.map_map, Function.comp_def]
+  · simp [cellOf, squashRowX, squashCols, List.find?, hp', toSeg, List.map_map, Function.comp_def]
+    show sumRat ((a :: rest).map (numCol "probes")) = _
+    rw [sq_numCol_probes, sq_cast_sumInt]
+    simp [List.map_map, Function.comp_def]
+  · simp [cellOf, squashRowX, squashCols, List.find?, redsOf, sq_numCol_weight, toSeg, List.map_map, Function.comp_def]
+
 /-- non-vacuity: two rows with a shared gene name, unequal weights, depth 10 and 40 -> depth (10*1 + 40*3)/4 -/
 example : cellOf "depth" (squashRowX ["depth"]
     [{ chrom := "chr1", s := 0, e := 10, gene := "A", log2 := 0, probes := 1, weight := 1, depth := 10 },
